@@ -523,6 +523,16 @@ def run(ctx: Ctx) -> None:
     n12 = star_args_bound_whole(ctx, "C13.R12")
     rep.floor("C13.R12", n12, 2)
     if rep.prop == "C13":
+        from .c05 import pinned_preimages as _pp
+        rep.rule("C13.R17", "as C03.R9: bindings that differ in a value get different signatures because different values are digested from different (the pinned) bytes - dictionary "
+                            "keys included (`{1: 'x'}` and `{'1': 'x'}` differ)")
+        n17 = _pp(ctx, "C13.R17")
+        rep.floor("C13.R17", n17, 25)
+        from .c01 import composer_components as _cc
+        rep.rule("C13.R18", "as C01.R1: a call discovered in source whose argument is a module variable is keyed by the value of that variable: the call-site context holds the tracked "
+                            "variables of the enclosing function")
+        _cc(ctx, "C13.R18")
+    if rep.prop == "C13":
         from .c05 import pinned_combinations
         rep.rule("C13.R14", "as C03.R15: the combiner of the (key, hash) pairs is the pinned one (exclusive-or of the digests, rendered as pinned): calls that bind a different value get a "
                             "different signature also when the signature has many components (an `or` of digests saturates: the contribution of one argument is covered by the others)")
